@@ -157,6 +157,13 @@ func fieldChain(v ssa.Value) (fields []*types.Var, root ssa.Value, elem bool) {
 					// pointer indirection: p.a.b where a is a pointer field
 				}
 				v = x.X
+			case *ssa.Alloc:
+				// a parameter captured by a closure is spilled to a cell that
+				// is stored once: the load denotes the parameter
+				if par := spilledParam(x.X.(*ssa.Alloc)); par != nil {
+					return fields, par, elem
+				}
+				return fields, v, elem
 			default:
 				return fields, v, elem
 			}
@@ -197,7 +204,10 @@ func namedOf(t types.Type) *types.Named {
 
 // isErrorType reports whether t is the predeclared error interface.
 func isErrorType(t types.Type) bool {
-	return types.Identical(t, types.Universe.Lookup("error").Type())
+	// not types.Identical: go/ssa uses internal placeholder types (range
+	// iterators, defer stacks) that go/types refuses to compare
+	n, ok := t.(*types.Named)
+	return ok && n.Obj().Pkg() == nil && n.Obj().Name() == "error"
 }
 
 // ---------------------------------------------------------------------------
@@ -480,4 +490,48 @@ func fnName(f *ssa.Function) string {
 		return o.Name()
 	}
 	return f.Name()
+}
+
+// spilledParam: a is the cell go/ssa creates for a parameter that a closure
+// captures (stored exactly once, with the parameter, never reassigned).
+func spilledParam(a *ssa.Alloc) *ssa.Parameter {
+	refs := a.Referrers()
+	if refs == nil {
+		return nil
+	}
+	var par *ssa.Parameter
+	n := 0
+	for _, r := range *refs {
+		if st, ok := r.(*ssa.Store); ok && st.Addr == a {
+			n++
+			par, _ = st.Val.(*ssa.Parameter)
+		}
+	}
+	if n != 1 || par == nil {
+		return nil
+	}
+	// closures that capture the cell must not assign it
+	for _, r := range *refs {
+		mc, ok := r.(*ssa.MakeClosure)
+		if !ok {
+			continue
+		}
+		fn, _ := mc.Fn.(*ssa.Function)
+		if fn == nil {
+			return nil
+		}
+		for i, b := range mc.Bindings {
+			if b != a || i >= len(fn.FreeVars) {
+				continue
+			}
+			if fr := fn.FreeVars[i].Referrers(); fr != nil {
+				for _, u := range *fr {
+					if st, ok := u.(*ssa.Store); ok && st.Addr == fn.FreeVars[i] {
+						return nil
+					}
+				}
+			}
+		}
+	}
+	return par
 }
